@@ -1459,6 +1459,15 @@ class Interp:
                 t, k = self.seq_term(src)
                 if 'nonnull' in self.spec_funcs:
                     return self.st.new_list(self.spec_funcs['nonnull'](self, t), k)
+        # [x for x in S if c(x)] over a symbolic sequence: a filter
+        if len(gens) == 1 and isinstance(e.elt, ast.Name) and isinstance(gens[0].target, ast.Name) \
+                and e.elt.id == gens[0].target.id and gens[0].ifs and not isinstance(gens[0].iter, (ast.List, ast.Tuple)):
+            src = self.eval(gens[0].iter, fr)
+            if isinstance(src, (VList, VSeq)) and self.concrete_items(src) is None:
+                t, k = self.seq_term(src)
+                if t is not None:
+                    r = self.filter_hom(e, fr, k)(t)
+                    return VTuple([]) if False else (self.st.new_list(r, k) if not isinstance(e, ast.GeneratorExp) else VSeq(r, k))
         # comprehension over a concrete sequence
         if len(gens) == 1:
             if isinstance(gens[0].iter, (ast.List, ast.Tuple)) and not any(isinstance(x, ast.Starred) for x in gens[0].iter.elts):
@@ -1805,9 +1814,45 @@ class Interp:
                 return h(self, recv, args, kwargs)
         if isinstance(recv, VMdEntry) and name == 'get':
             pass
-        if isinstance(recv, VElem) and 'call_default' in self.spec_funcs:
+        if isinstance(recv, (VElem, VAw) if getattr(self, '_in_filter', False) else VElem) and 'call_default' in self.spec_funcs:
             return self.spec_funcs['call_default'](self, 'method', name, recv, args, kwargs)
         raise Unsupported('method %s on %r' % (name, recv))
+
+    def filter_hom(self, e, fr, kind):
+        """[x for x in S if c1(x) if c2(x) ...] over a symbolic sequence: the homomorphism  keep(S)  with
+        keep([]) = [], keep([e]) = [e] if c(e) else [], keep(a ++ b) = keep(a) ++ keep(b).  The condition is evaluated as a pure
+        expression of the element; calls it makes on the element that the contract does not describe are uninterpreted
+        predicates of the element (deterministic, side-effect free: the assumption under which a filter is a function at all)."""
+        cache = self.__dict__.setdefault('_filter_homs', {})
+        if id(e) in cache:
+            return cache[id(e)]
+        gen0 = e.generators[0]
+        name = gen0.target.id
+        I = self
+
+        def cond(term):
+            sub = Frame(fr.qual, dict(fr.locals))
+            sub.closure = getattr(fr, 'closure', None)
+            sub.locals[name] = kind.wrap(term)
+            saved = (I.spec_mode, I.spec_funcs, getattr(I, '_in_filter', False))
+            sf = dict(I.spec_funcs)
+
+            def pure_default(I2, kind_, nm, recv, args, kwargs):
+                ts = [x.t for x in ([recv] if recv is not None else []) + list(args) if hasattr(x, 't') and x.t is not None]
+                if len(ts) != 1 or kwargs:
+                    raise Unsupported('call %s inside a filter condition' % nm)
+                return VBool(z3.Function('pure:' + nm, ts[0].sort(), z3.BoolSort())(ts[0]))
+            sf['call_default'] = pure_default
+            I.spec_mode, I.spec_funcs, I._in_filter = True, sf, True
+            try:
+                return z3.And([I.truth(I.eval(c, sub)) for c in gen0.ifs])
+            finally:
+                I.spec_mode, I.spec_funcs, I._in_filter = saved
+        ssort = z3.SeqSort(kind.sort)
+        h = sym.SpecFun(sym.fresh_name('keep'), [], ssort, ssort, zero=lambda: z3.Empty(ssort),
+                        one=lambda x: z3.If(cond(x), z3.Unit(x), z3.Empty(ssort)), plus=lambda a, b: z3.Concat(a, b))
+        cache[id(e)] = h
+        return h
 
     def seq_index(self, recv, item):
         t, k = self.seq_term(recv)
